@@ -66,8 +66,13 @@ impl PostConversionLinter for BuiltInLinter {
                 self.visit_expressions(args)
             }
             Expression::Property(left, _, _) => {
-                // the left side might be an array element with arguments
-                match left.as_ref() {
+                // the left side might be an array element with arguments,
+                // directly or further down the chain (e.g. `A(1).B.C`)
+                let mut owner = left.as_ref();
+                while let Expression::Property(inner, _, _) = owner {
+                    owner = inner.as_ref();
+                }
+                match owner {
                     Expression::ArrayElement(_, args, _) => self.visit_expressions(args),
                     _ => Ok(()),
                 }
